@@ -184,6 +184,8 @@ namespace
             out.push_back("livelock-or-horizon");
         else if (r.verdict == "WATCHDOG")
             out.push_back("unhooked-spin-or-watchdog");
+        else if (r.verdict == "SIGNAL")
+            out.push_back("crash/signal-" + r.detail);  // abort (libstdc++ assertion), segmentation fault ...
         else if (r.verdict != "OK" && r.verdict != "RACE")
             out.push_back("harness/" + r.verdict);
         for (auto& rc : r.races)
